@@ -13,7 +13,7 @@ from ..execu import run
 from ..runner import short
 
 ID = "C09"
-N = {"quick": 6000, "thorough": 160000}
+N = {"quick": 15000, "thorough": 160000}
 TIME_BUDGET = {"quick": 40, "thorough": 480}
 MIN_NONTRIVIAL = {"quick": 200, "thorough": 2000}
 RULE = ("cases = one combinator node (| ^ & ~) over 1-4 argument types drawn from a curated list of DISAGREEING leaves "
